@@ -34,6 +34,10 @@ let prios = ref []
 let vhint = ref []
 let dshint = ref []
 let puhint = ref []
+let rhhint = ref []
+let d2states = ref []
+let d2start = ref 0
+let brhint = ref []
 let rhint = ref []
 let acts = ref []
 let utf8 = ref false
@@ -104,6 +108,36 @@ let () =
             Buffer.add_string buf (Printf.sprintf "C %s %s %s %s %s %s %s %s\n" tag
               (b (dfa_ok d)) (b (sim_ok d g v ds)) (b (exact_ok d g v r ds)) (b (wf_graph g)) (b (prompt_ok d g v r))
               (b (utf8_ok d pu)) (b (utf8_strict_ok d pu ds)))
+        | "D2" -> d2states := []; d2start := next ()
+        | "Q2" ->
+            let q = next () in let eo = next () in let nm = next () in
+            let ms = List.init nm (fun _ -> n_of_int (next ())) in
+            let nt = next () in
+            let tr = List.init nt (fun _ -> let lo = next () in let hi = next () in let t = next () in
+                                   ((n_of_int lo, n_of_int hi), n_of_int t)) in
+            d2states := (((n_of_int q, tr), n_of_int eo), ms) :: !d2states
+        | "BR" -> let k = next () in
+            brhint := List.init k (fun _ -> let s = next () in let nq = next () in
+                                   (n_of_int s, List.init nq (fun _ -> n_of_int (next ()))))
+        | "BS" ->
+            (* BS tag l1 l2 : language equality of leaf l1 of the DFA and leaf l2 of the second DFA *)
+            let tag = toks.(1) in pos := 2;
+            let l1 = next () in let l2 = next () in
+            let d1 = get_dfa () in
+            let d2 = mk_dfa (List.rev !d2states) (n_of_int !d2start) [] in
+            let r = bisim_ok d1 (n_of_int l1) d2 (n_of_int l2) (mk_pairing !brhint) in
+            Buffer.add_string buf (Printf.sprintf "BS %s %s\n" tag (if r then "1" else "0"))
+        | "RH" -> let k = next () in
+            rhhint := List.init k (fun _ -> let q = next () in let p = next () in let u = next () in let n = next () in
+                                   (n_of_int q, ((n_of_int p, n_of_int u), n_of_int n)))
+        | "TI" ->
+            (* ties of the current DFA (one leaf set per tie state) and validity of the reachability hint *)
+            let tag = toks.(1) in
+            let d = get_dfa () in
+            let ts = ties d in
+            let b x = if x then "1" else "0" in
+            Buffer.add_string buf (Printf.sprintf "TI %s %s %s |%s\n" tag (b (reach_ok d (mk_reach !rhhint))) (b (dfa_ok d))
+              (String.concat "|" (List.map (fun l -> " " ^ print_ns l ^ " ") ts)))
         | "CU" ->
             (* DFA-only UTF-8 certificates: dead_ok, utf8_ok, utf8_strict_ok *)
             let tag = toks.(1) in
